@@ -270,7 +270,15 @@ class C02(Property):
         "Flatland.Flat.Proofs.confined_full_fails",
         "Flatland.Flat.Proofs.order_free",
         "Flatland.Flat.Proofs.order_free_full_fails",
+        # the stable version (k2, Proofs/C02OrderStable.lean): Arrays exempt, their pairs keep their order
+        "Flatland.Flat.Proofs.order_free_stable",
+        "Flatland.Flat.Proofs.hnodup_hnodupA",
+        "Flatland.Flat.Proofs.asame_of_hnodup",
+        "Flatland.Flat.Proofs.order_free_of_stable",
+        "Flatland.Flat.Proofs.order_free_stable_full_fails",
+        "Flatland.Flat.Proofs.exStable",
     ]
+    extra_proof_modules = ["Proofs.C02OrderStable"]   # needed for the audit to see the six names above
     trusted_base = [
         "scalar set(text) is an input of the flat model (env.norm tables computed from the real scalar classes in isolation; C04's subject)",
         "regex/int()/startswith re-implemented by hand in Flatland/Flat.lean (Nd table and int digit limit regenerated from the interpreter)",
